@@ -4,7 +4,8 @@ import json, os, shutil, sys, glob, re
 prop, k, slug, det = sys.argv[1:5]
 note = sys.argv[5] if len(sys.argv) > 5 else ""
 src = f"/tmp/out-{prop}"
-dst = f"/verif/seeded/{prop}-{k}-{slug}"
+wave = os.environ.get("WAVE", "")
+dst = f"/verif/seeded/{prop}-{wave}{k}-{slug}"
 os.makedirs(dst, exist_ok=True)
 shutil.copy(f"{src}/patch{k}.diff", f"{dst}/patch.diff")
 shutil.copy(f"{src}/demo{k}.py", f"{dst}/demo.py")
